@@ -354,6 +354,14 @@ func (i *interpreter) formatValue(fr *frame, sp spec, t types.Type, v value, dep
 			case kindFloat(s.k):
 				v = i.concretiseFloat(s)
 			default:
+				if (sp.verb == 'q' || sp.verb == 'c') && sp.flags == "" && !sp.hasW && !sp.hasP {
+					// a symbolic character: run the real conversion on it
+					r := i.convScalar(s, types.Int32)
+					if sp.verb == 'q' {
+						return strBytes(i.callByName(fr, "strconv.QuoteRune", r))
+					}
+					return i.callByName(fr, "unicode/utf8.AppendRune", []value(nil), r).([]value)
+				}
 				v = i.concretise(s, "fmt %"+string(sp.verb))
 			}
 		}
